@@ -78,8 +78,8 @@ def _shape(draw, struct, R, S):
 
 
 @st.composite
-def floorplan(draw, max_modules=4):
-    unit = draw(st.sampled_from(["1", "1", "0.5", "0.25", "2", "0.1", "2.5"]))
+def floorplan(draw, max_modules=4, units=None):
+    unit = draw(st.sampled_from(units or ["1", "1", "0.5", "0.25", "2", "0.1", "2.5"]))
     R = draw(st.sampled_from(RATIOS))
     S = 24
     cols, rows = draw(st.sampled_from([(1, 1), (2, 1), (1, 2), (2, 2), (2, 2), (3, 1)]))
